@@ -1234,7 +1234,10 @@ class Var(ArrayReduction):
             result = moment_agg(vals, sum=np.nansum, ddof=ddof, axis=(0,))
         else:
             result = moment_agg(vals, ddof=ddof, axis=(0,))
-        return result
+        # Like pandas, and unlike numpy (inf), the variance of no more than
+        # ``ddof`` values is NaN
+        n = np.concatenate([v["n"] for v in vals]).sum(axis=0)
+        return np.where(n > ddof, result, np.nan)[()]
 
 
 class Moment(ArrayReduction):
